@@ -474,7 +474,8 @@ pub proof fn lemma_sum_coprime_part(a: int, b: int, c: int, bp: int, dp: int, kb
         lemma_divides_intro(e, qc, bp * c);
         lemma_divides_lincomb(e, bp * c, nn, -1);
         let da = dp * a;
-        assert((-1) * (bp * c) + nn == da);
+        let bc = bp * c;
+        assert((-1) * bc + nn == da) by (nonlinear_arith) requires nn == da + bc;
         assert(divides(e, da));
         // gcd(e, |a|) = 1
         lemma_one_divides(e);
